@@ -19,6 +19,7 @@ EXPLANATION = (
     "memoize() reads the enclosing interpretation before entering Memoize(base, cache) with a with-statement and yields inside it. "
     "R03.4: both reinterpreters dispatch on type(x) and pass the reinterpreted children in children(x) order. NOT decided: value "
     "equality of deferred and immediate evaluation."
+    " Added since: the hit/miss/insert protocol is decided by symbolic execution of every path (funsorlint/protocol.py); what is passed as *args to make_hash_key tiles args exactly; the caller's cache is replaced only when it is None; R03.5-R03.7 the normalising rewrites preserve value (shared with C02)."
 )
 ASSUMPTIONS = ["children(x) returns the constructor arguments in order (Funsor: _ast_values; checked by C07 R07.4 that these are the keyed args)"]
 RULE_TEXT = "one obligation per dependence of the memo key, per protocol clause, per reinterpreter call shape"
